@@ -254,16 +254,22 @@ func init() {
 		Rule: "same closed loop as C03; 6 fixed small base schedules (first assignment with scale-up; relief of an overloaded shard; scale-down emptying the tail; steady state with late pods, kept volumes, head residue; relief whose overload ends while the moves are under way; a chained move: the relief destination becomes overloaded itself while the first source, scraping rarely, has not finished the hand-over), 8 perturbed cycles each; " +
 			"fault alphabet injected at harness-owned boundaries, each armed for exactly the cycle(s) stated: target POST not delivered, POST delivered but answer lost, sidecar restart from its store, shard not ready for 1-2 cycles, status GET failing 1-2 cycles, runtime GET failing, config hash out of sync with rejected push for 1-2 cycles, tail shard removed while holding targets (+ late new shards via the schedule); " +
 			"enumeration: EVERY placement of one fault (11 variants x 8 cycles x shard 0..2) on four schedules (thorough: all six), a strided third on the others, 200 seed-sampled pairs (thorough: every pair on the three relief schedules + 3000 sampled triples); after the last fault the C03 predicate must be reached within B quiet cycles and stay for 5; " +
+			"plus the restart fault on the REAL `kvass sidecar` process (8 / 64 cases, configuration pushed or from --config.file): assigned, killed, started twice more on the same volume, configuration pushed again as the coordinator would, no targets posted - the file given to Prometheus must list exactly the resumed targets in every life; " +
 			"non-trivial = a fault was really applied (or the control); distinct = (schedule, fault placements)",
 		Assumptions: []string{
 			"faults are injected in the harness' wrappers around the real api.Get/api.Post, in the simulated StatefulSet and by rebuilding the sidecar on its store; a fault that cannot apply (no such shard at that time) is recorded as not applied",
 			"bound B = 10 + 4*T + 3*8 quiet cycles with 3 scrape rounds per shard after each cycle",
 		},
-		NumCases: func(tier string) int { return len(get(tier, 1)) },
+		NumCases: func(tier string) int {
+			if tier == "thorough" {
+				return len(get(tier, 1)) + c06RealThorough
+			}
+			return len(get(tier, 1)) + c06RealQuick
+		},
 		Run: func(w *core.WorkerCtx, idx int) *core.CaseResult {
 			cs := get(w.Tier, w.Seed)
 			if idx >= len(cs) {
-				return &core.CaseResult{}
+				return runC06Real(w, idx-len(cs))
 			}
 			c := cs[idx]
 			sc := baseSchedules()[c.Base]
